@@ -212,7 +212,7 @@ func (c14) Enumerate(tier string, seed int64, yield func(string, core.Case) bool
 			return emit(fam, p, 0, false)
 		case "pb2n3":
 			pbn++
-			if pbn%23 == 0 || (thorough && pbn%7 == 0) {
+			if pbn%23 == 0 || (thorough && pbn%29 == 0) {
 				if !withCosts(fam, p, 3, 0, false) {
 					return false
 				}
